@@ -1,6 +1,8 @@
 """Crash-point injector: raises an exception between two statements of
-formulae code, from the outside, through PEP 669 ``sys.monitoring`` LINE
-events restricted to files under the formulae package.  No change to /repo.
+formulae code ("line" mode) or right before a call made by formulae code,
+i.e. inside a statement after earlier sub-expressions were already evaluated
+("call" mode), from the outside, through PEP 669 ``sys.monitoring`` events
+restricted to files under the formulae package.  No change to /repo.
 """
 import sys
 
@@ -13,49 +15,68 @@ class SimAbortBase(BaseException):
 
 
 class SimAbortExc(Exception):
-    """MemoryError-like: an ordinary exception surfacing at an arbitrary line."""
+    """MemoryError-like: an ordinary exception surfacing at an arbitrary point."""
 
 
 class Injector:
     def __init__(self, root):
         self.root = root.rstrip("/") + "/"
-        self.count = 0
+        self.counts = {"line": 0, "call": 0}
         self.at = None
+        self.mode = "line"
         self.exc = None
         self.fired = None
         self.active = False
         self.installed = False
+
+    @property
+    def count(self):
+        return self.counts[self.mode]
 
     def install(self):
         if self.installed:
             return
         mon.use_tool_id(TOOL, "designsim")
         mon.register_callback(TOOL, mon.events.LINE, self._line)
+        mon.register_callback(TOOL, mon.events.CALL, self._call)
         self.installed = True
+
+    def _hit(self, mode, code, where):
+        self.counts[mode] += 1
+        if self.at is not None and self.mode == mode and self.counts[mode] == self.at:
+            self.fired = (code.co_filename[len(self.root):], code.co_name, where)
+            raise self.exc
 
     def _line(self, code, line):
         if not code.co_filename.startswith(self.root):
             return mon.DISABLE
-        if not self.active:
-            return None
-        self.count += 1
-        if self.at is not None and self.count == self.at:
-            self.fired = (code.co_filename[len(self.root):], code.co_name, line)
-            raise self.exc
+        if self.active:
+            self._hit("line", code, line)
         return None
 
-    def run(self, fn, at=None, flavour="base"):
-        """Run fn() counting formulae line events; abort at the ``at``-th one.
+    def _call(self, code, offset, callable_, arg0):
+        if not code.co_filename.startswith(self.root):
+            return mon.DISABLE
+        if self.active:
+            self._hit("call", code, f"call@{offset}")
+        return None
 
-        Returns (value, count, fired).  Exceptions propagate after the
-        monitoring has been switched off."""
+    def run(self, fn, at=None, flavour="base", mode="line", count_both=False):
+        """Run fn() counting formulae line/call events; abort at the ``at``-th event of ``mode``.
+        Exceptions propagate after the monitoring has been switched off."""
         self.install()
-        self.count = 0
+        self.counts = {"line": 0, "call": 0}
         self.at = at
+        self.mode = mode
         self.fired = None
-        self.exc = (SimAbortBase if flavour == "base" else SimAbortExc)(f"injected abort at line event {at}")
+        self.exc = (SimAbortBase if flavour == "base" else SimAbortExc)(
+            f"injected abort at {mode} event {at}")
         mon.restart_events()
-        mon.set_events(TOOL, mon.events.LINE)
+        if count_both:
+            ev = mon.events.LINE | mon.events.CALL
+        else:
+            ev = mon.events.LINE if mode == "line" else mon.events.CALL
+        mon.set_events(TOOL, ev)
         self.active = True
         try:
             return fn()
